@@ -449,6 +449,9 @@ func (r *Run) attribute(v *Violation) *Violation {
 			switch r.Engine {
 			case "client":
 				v.Property = "C15"
+				if strings.HasPrefix(v.Class, "deadlock") && r.Profile == "C10" {
+					v.Property = "C10" // a task that can never proceed also breaks exactly-once completion
+				}
 			case "agent":
 				v.Property = "C14"
 			}
